@@ -79,6 +79,116 @@ def run_solver(des, wt, sc, cons):
     return pos, uns, act, ret, terminated, calls[0], err
 
 
+def traced_solve(des, wt, sc, cons):
+    """Micro-step log of one solve(): the solver's internal calls are wrapped at run time in THIS process only (no source hook).
+    Returns None when an attribute to wrap does not exist any more (refactoring): the layer is then skipped."""
+    needed = [(vpsc.Block, "split"), (vpsc.Block, "splitBetween"), (vpsc.Blocks, "merge"), (vpsc.Blocks, "split"),
+              (vpsc.Solver, "mostViolated"), (vpsc.Solver, "satisfy")]
+    if not all(hasattr(o, a) for o, a in needed):
+        return None
+    vs = [vpsc.Variable(d, w, s) for d, w, s in zip(des, wt, sc)]
+    cs = [vpsc.Constraint(vs[a], vs[b], g) for a, b, g in cons]
+    solver = vpsc.Solver(vs, cs)
+    idx = {id(c): i + 1 for i, c in enumerate(cs)}
+    raw = []
+    st = {"sb": False}
+    o_split = vpsc.Block.split
+    o_sb = vpsc.Block.splitBetween
+    o_merge = vpsc.Blocks.merge
+    o_bsplit = vpsc.Blocks.split
+    o_mv = vpsc.Solver.mostViolated
+    o_sat = vpsc.Solver.satisfy
+
+    def flags():
+        return [1 if c.active else 0 for c in cs], [1 if c.unsatisfiable else 0 for c in cs]
+
+    def w_split(cls, c):
+        r = o_split(c)
+        raw.append(("sbsplit" if st["sb"] else "split", idx.get(id(c), 0)) + flags())
+        return r
+
+    def w_sb(self, vl, vr):
+        st["sb"] = True
+        try:
+            return o_sb(self, vl, vr)
+        finally:
+            st["sb"] = False
+
+    def w_merge(self, c):
+        r = o_merge(self, c)
+        raw.append(("merge", idx.get(id(c), 0)) + flags())
+        return r
+
+    def w_bsplit(self, inactive):
+        r = o_bsplit(self, inactive)
+        raw.append(("endsplit", 0) + flags())
+        return r
+
+    def w_mv(self):
+        v = o_mv(self)
+        viol = v is not None and (not v.active) and v.slack() < vpsc.Solver.ZERO_UPPERBOUND
+        raw.append(("mv", idx.get(id(v), 0) if viol else 0) + flags())
+        return v
+
+    def w_sat(self):
+        if len(raw) > 4000:
+            raise Budget()
+        r = o_sat(self)
+        raw.append(("endsat", 0) + flags())
+        return r
+    vpsc.Block.split = classmethod(w_split)
+    vpsc.Block.splitBetween = w_sb
+    vpsc.Blocks.merge = w_merge
+    vpsc.Blocks.split = w_bsplit
+    vpsc.Solver.mostViolated = w_mv
+    vpsc.Solver.satisfy = w_sat
+    try:
+        solver.solve()
+    except Budget:
+        return None
+    finally:
+        vpsc.Block.split = o_split
+        vpsc.Block.splitBetween = o_sb
+        vpsc.Blocks.merge = o_merge
+        vpsc.Blocks.split = o_bsplit
+        vpsc.Solver.mostViolated = o_mv
+        vpsc.Solver.satisfy = o_sat
+    # raw calls -> model actions
+    ev = []
+    i = 0
+    n = len(raw)
+    while i < n:
+        kind, c, act, uns = raw[i]
+        if kind == "split":
+            ev.append({"a": "S", "c": c, "act": act, "uns": uns})
+        elif kind == "endsplit":
+            ev.append({"a": "E", "c": 0, "act": act, "uns": uns})
+        elif kind == "mv":
+            nxt = raw[i + 1] if i + 1 < n else None
+            if c == 0:
+                ev.append({"a": "N", "c": 0, "act": act, "uns": uns})
+            elif nxt is not None and nxt[0] == "mv":
+                ev.append({"a": "U", "c": c, "act": nxt[2], "uns": nxt[3]})      # flagged, then the next candidate is fetched
+            elif nxt is not None and nxt[0] == "merge":
+                ev.append({"a": "M", "c": c, "act": nxt[2], "uns": nxt[3]})
+                i += 1
+            elif nxt is not None and nxt[0] == "sbsplit":
+                # split-between: the state after the optional re-merge of c
+                j = i + 2
+                last = nxt
+                if j < n and raw[j][0] == "merge":
+                    last = raw[j]
+                    j += 1
+                ev.append({"a": "B", "c": c, "act": last[2], "uns": last[3]})
+                i = j - 1
+            else:
+                ev.append({"a": "U", "c": c, "act": act, "uns": [u or (1 if k + 1 == c else 0) for k, u in enumerate(uns)]})
+        elif kind == "endsat":
+            ev.append({"a": "X", "c": 0, "act": act, "uns": uns})
+        i += 1
+    return ev
+
+
 def envelope_ok(des, wt, sc, cons):
     """A-priori magnitude bound so that the exact rational arithmetic of Vpsc.tla stays
     inside TLC's 32-bit integers (see DESIGN section 5)."""
@@ -302,11 +412,19 @@ def main():
                 continue
             recs.append(rec)
         else:
-            des, wt, sc, cons = gen_small(rng, mode)
+            des, wt, sc, cons = gen_small(rng, rng.choice(["small", "small", "scaled", "cyclic"]) if mode == "steps" else mode)
             if not cons or not envelope_ok(des, wt, sc, cons):
                 discarded += 1
                 continue
-            recs.append(rec_small(des, wt, sc, cons))
+            if mode == "steps":
+                ev = traced_solve(des, wt, sc, cons)
+                if ev is None:
+                    json.dump({"records": [], "discarded": 0, "skipped": "solver internals not wrappable"}, sys.stdout)
+                    return
+                recs.append({"n": len(des), "des": des, "wt": wt, "sc": sc, "cl": [a + 1 for a, _, _ in cons],
+                             "cr": [b + 1 for _, b, _ in cons], "cg": [g for _, _, g in cons], "ev": ev})
+            else:
+                recs.append(rec_small(des, wt, sc, cons))
     json.dump({"records": recs, "discarded": discarded}, sys.stdout)
 
 
